@@ -1,0 +1,47 @@
+//go:build verif
+
+package encode
+
+// Exports for the verification harness in /verif. Compiled only with the
+// "verif" build tag; adds no behaviour to the package.
+
+func VerifEncodeNatural(u uint32) []byte {
+	var b buffer
+	b.encodeNatural(u)
+	return b
+}
+
+func VerifEncodeReal(f float32) []byte {
+	var b buffer
+	b.encodeReal(f)
+	return b
+}
+
+func VerifEncode4ByteReal(f float32) []byte {
+	var b buffer
+	b.encode4ByteReal(f)
+	return b
+}
+
+func VerifEncodeCoordinate(f float32) []byte {
+	var b buffer
+	b.encodeCoordinate(f)
+	return b
+}
+
+func VerifEncodeZeroToOne(f float32) []byte {
+	var b buffer
+	b.encodeZeroToOne(f)
+	return b
+}
+
+func VerifEncodeAngle(f float32) []byte {
+	var b buffer
+	b.encodeAngle(f)
+	return b
+}
+
+func VerifQuantize(highResolution bool, f float32) float32 {
+	e := Encoder{highResolutionCoordinates: highResolution}
+	return e.quantize(f)
+}
